@@ -316,6 +316,7 @@ def run(ctx):
     ctx.cov["evaluations"] = len(jobs)
     ctx.cov["runs_unmapped"] = sum(1 for r_, info in res if info.get("unmapped"))
     ctx.cov["runs_refused"] = sum(1 for r_, info in res if info.get("rc"))
+    ctx.cov["runs_refused_which"] = sorted({"%s|%s|rc=%s" % (os.path.basename(j[3]), j[5], info.get("rc")) for (r_, info), j in zip(res, jobs) if info.get("rc")})[:40]
     ctx.cov["pair_classes_judged"] = len(evs)
     ctx.cov["rules_seen"] = len({e["rule"] for e in evs})
     ctx.cov["option_rules_seen"] = len({e["rule"] for e in evs if e["val"]})
